@@ -242,8 +242,10 @@ REVIEWED = {
     ("::Element>>::from", "assert:bounds"): (2, "Ai[i], Ai[i+1] for i in 0..7 on [T; 8]", None),
     ("::Element>>::from", "assert:overflow:Add"): (1, "i + 1 for i in 0..7", None),
     # --- ciphersuite crates
-    ("ScalarField as frost_core::traits::Field>::invert", "call:CtOption::unwrap"): (1, "invert() of a non-zero scalar: guarded by the zero refusal", ob_sep(
-        cmp_fact("eq", contains_term(arg(1)), lambda t: is_call(t, name="zero") or (t[0] == "const" and "ZERO" in str(t[2])), True))),
+    ("ScalarField as frost_core::traits::Field>::invert", "call:CtOption::unwrap"): (1, "invert() of a non-zero scalar: guarded by the zero refusal (`== zero()` or `is_zero()`)", ob_sep(
+        cmp_fact("eq", contains_term(arg(1)), lambda t: is_call(t, name="zero") or (t[0] == "const" and "ZERO" in str(t[2])), True),
+        lambda fa: (("fail" if fa[4] else "pass") if fa[0] == "cond" and fa[1] == "other" and
+                    (lambda c: is_call(c, name="is_zero") and len(c[2]) == 1 and mentions(c[2][0], arg(1)))(pred_core(fa[2])[0]) else None))),
     ("Group as frost_core::traits::Group>::serialize", "call:slice::copy_from_slice"): (1, "compressed SEC1 encoding of a non-identity point is 33 bytes; the identity (1 byte) is refused first", ob_sep(
         cmp_fact("eq", contains_term(arg(1)), lambda t: mentions(t, lambda s: is_call(s, name="identity") or (s[0] == "const" and "IDENTITY" in str(s[2]))), True))),
     ("::hash_to_array", "call:slice::copy_from_slice"): (1, "digest output size equals the array size (type-level constants)", None),
@@ -283,6 +285,13 @@ def normal_kind(P, f, v, k, bb):
         if a and is_call(a[0]) and a[0][1].rsplit("::", 1)[-1] in ("try_into", "try_from") and "array" in (a[0][1] + str(a[0][4] or "")).lower() or \
                 (a and is_call(a[0]) and a[0][1].rsplit("::", 1)[-1] in ("try_into", "try_from") and "; " in f.local_ty(t["dest"]["l"])):
             return "call:slice::copy_from_slice"
+    if k[5:] in ("Option::unwrap", "Option::expect") and t["k"] == "call":
+        # `Option::from(ct_option).expect(..)` is `ct_option.unwrap()`: both abort exactly when the CtOption is none
+        a = v.call_args(bb)
+        if a and is_call(a[0]) and a[0][1].rsplit("::", 1)[-1] in ("from", "into") and len(a[0][2]) == 1:
+            ci2, term2 = call_info(P, a[0])
+            if term2 is not None and any("CtOption" in ty for ty in term2.get("arg_tys", [])):
+                return "call:CtOption::unwrap"
     if k[5:] in ("Option::unwrap", "Result::unwrap"):
         return k.replace("unwrap", "expect")
     if k == "assert:rem0" and t["k"] == "assert":
